@@ -48,9 +48,11 @@ def gen_job(job):
     import random
     rng = random.Random("dbfiles/%s/%d" % (kind, seed))
     todo = []
-    for (cname, maker) in dbfiles.contents(kind, rng, tier):
-        for entry in ("get", "create", "open"):
-            todo.append((cname, maker, entry))
+    for rnd in range(1 if tier == "quick" else 10):
+        # thorough: ten rounds of freshly generated contents (other rows, other truncation offsets, other junk)
+        for (cname, maker) in dbfiles.contents(kind, random.Random("dbfiles/%s/%d/%d" % (kind, seed, rnd)), tier):
+            for entry in ("get", "create", "open"):
+                todo.append((cname, maker, entry))
     lines, sid = [], part * 100000
     for idx, (cname, maker, entry) in enumerate(todo):
         if idx % nparts != part:
